@@ -153,6 +153,8 @@ def install(ex):
         a = args[0]
         return a.ptr is not None and a.ptr.obj in st.ghost.get("bs_released", ())
 
+    vReleasedStr = vReleased
+
     for k, v in list(locals().items()):
         if k.startswith("v") and callable(v):
             I[k] = v
@@ -189,6 +191,31 @@ def install(ex):
         S["math/bits.TrailingZeros" + suf] = bits_tz(b)
         S["math/bits.LeadingZeros" + suf] = bits_lz(b)
         S["math/bits.OnesCount" + suf] = bits_oc(b)
+
+    # ---------------------------------------------------------------- hash/crc32: pure uninterpreted function of its argument
+    def crc32_ieee(ex, st, args, ins):
+        b = args[0]
+        arr = ex.load(st, b.ptr).arr if b.ptr is not None else None
+        key = ("crc", id(arr), str(b.off), str(b.len))
+        memo = st.ghost.get("crc_memo", {})
+        if key not in memo:
+            v = ex.A.fresh(ex.fresh_name("crc32"), 32, False)
+            c = ex.A.range_constraint(v, 32, False)
+            if c is not True:
+                st.pc.append(c)
+            memo = dict(memo)
+            memo[key] = (v, arr)   # keep arr alive so id() stays unique
+            st.ghost["crc_memo"] = memo
+            # for replay: which nondeterministic byte string is hashed (whole string only)
+            base = None
+            a = arr
+            if isinstance(a, ACopy) and isinstance(a.dst, AZero) and isinstance(a.src, ABase) and str(a.doff) == "0" and str(a.soff) == "0":
+                a = a.src
+            if isinstance(a, ABase):
+                base = a.name
+            st.ghost["crc_fix"] = st.ghost.get("crc_fix", ()) + ((v, base),)
+        return memo[key][0]
+    S["hash/crc32.ChecksumIEEE"] = crc32_ieee
 
     # ---------------------------------------------------------------- sync.Pool
     # ghost "pools": tuple of (pool Ptr, value). Get may return nil or any stored element of that pool.
@@ -422,6 +449,16 @@ def install_contracts(ex, names):
         st.ghost["rb_released"] = st.ghost.get("rb_released", ()) + (b.obj,)
         st.events.append("rbPool.Put")
         return None
+
+    if "net_ipv4" in names:
+        def net_ipv4(ex, st, args, ins):
+            # net.IPv4(a,b,c,d): 16-byte form ::ffff:a.b.c.d (package net's v4InV6Prefix table lives in an initialiser we do not run)
+            arr = AConst(bytes([0] * 10 + [0xff, 0xff, 0, 0, 0, 0]))
+            for i, v in enumerate(args[:4]):
+                arr = AStore(arr, 12 + i, v)
+            p = ex.alloc(st, Bytes(arr, 16), "ip")
+            return SliceV(p, 0, 16, 16)
+        S["net.IPv4"] = net_ipv4
 
     if "rb_calibrate_havoc" in names:
         def calib(ex, st, args, ins):
